@@ -169,3 +169,11 @@ func failOn(t *rapid.T, st *pbt.Stats, res *lab.Result, vs []lab.Violation) {
 func checksFor(def, thorough int) int { return pbt.Scale(def, thorough) }
 
 var _ = testing.Short
+
+// replayDoc is the on-disk format of a replay file written by pbt.Stats.Report.
+type replayDoc struct {
+	Property string    `json:"property"`
+	Key      string    `json:"key"`
+	Detail   string    `json:"detail"`
+	Replay   labReplay `json:"replay"`
+}
